@@ -280,7 +280,8 @@ impl ViewSpec {
         }
         Some((ViewSpec { base, subs, k }, &w[2 + 2 * k..]))
     }
-    /// where the view starts in the file (`None`: the sum of the starts does not fit `u64`)
+    /// where the view starts in the file (`None`: the starts add up to 2^64 or more; since 989a9c95
+    /// `make_subrange` saturates, such a view starts at `u64::MAX`)
     fn start(&self) -> Option<u64> {
         let mut s = self.base.map_or(0, |b| b.0);
         for &(a, _) in &self.subs[..self.k] {
@@ -611,11 +612,6 @@ fn gen_op(rng: &mut Rng, g: &Gen, data: &[u8], prev: &[Op]) -> Op {
     }
 }
 
-/// enable once the finding `C13-subrange-start-overflow` is recorded in KNOWN_FINDINGS.txt (or repaired):
-/// `make_subrange` chains whose starts add up to 2^64 or more (shared.rs:1057 adds unchecked: panic with
-/// overflow checks, wrapped offset in release). See notes/C13.md, "Improvement round".
-const GEN_SUBRANGE_OVERFLOW: bool = false;
-
 /// a `RangeReadRef` whose start is at or below `target` (mostly), built from a base and 0..3 nested
 /// sub-ranges with arbitrary sizes (shared.rs never consults them), and the remaining distance to `target`
 fn gen_view(rng: &mut Rng, g: &Gen, target: u64) -> (ViewSpec, u64) {
@@ -666,7 +662,7 @@ fn to_view_op(rng: &mut Rng, g: &Gen, op: Op) -> Op {
                 let v = ViewSpec { base: Some((s, rng.below(100))), subs: [(0, 0); 3], k: 0 };
                 Op::VRead(v, rng.range(u64::MAX - s, u64::MAX - s + 60), n.min(100))
             }
-            4 if GEN_SUBRANGE_OVERFLOW => gen_subrange_overflow(rng, g),
+            4 => gen_subrange_overflow(rng, g),
             _ => {
                 let (v, rest) = gen_view(rng, g, o);
                 Op::VRead(v, rest, n)
@@ -684,12 +680,15 @@ fn to_view_op(rng: &mut Rng, g: &Gen, op: Op) -> Op {
     }
 }
 
-/// excluded point of `C13_shared_step` (`startOk`): the starts of a `make_subrange` chain reach 2^64
+/// the starts of a `make_subrange` chain reach 2^64 (the defect repaired by 989a9c95: the pre-fix code added
+/// unchecked — panic with overflow checks, wrapped offset in release; the repaired code saturates, the view
+/// starts at `u64::MAX` and every non-empty read through it must fail cleanly). The wrapped offset
+/// `a + b - 2^64` is made to fall inside the file, so that a wrapping build would return bytes.
 fn gen_subrange_overflow(rng: &mut Rng, g: &Gen) -> Op {
     let a = u64::MAX - rng.below(3 * CH);
     let b = u64::MAX - a + 1 + rng.below(g.len.min(1 << 40) + 2); // a + b wraps to `below(len + 2)`
     let mut subs = [(0u64, 0u64); 3];
-    let (base, k) = match rng.below(3) {
+    let (base, k) = match rng.below(4) {
         0 => {
             subs[0] = (b, rng.below(100));
             (Some((a, 10)), 1)
@@ -699,6 +698,12 @@ fn gen_subrange_overflow(rng: &mut Rng, g: &Gen) -> Op {
             subs[1] = (b, 5);
             (None, 2)
         }
+        2 => {
+            // lands exactly on 2^64
+            subs[0] = (u64::MAX - a + 1, g.len);
+            subs[1] = (rng.below(3), 1);
+            (Some((a, u64::MAX)), 2)
+        }
         _ => {
             subs[0] = (1, 5);
             subs[1] = (a - 1, 5);
@@ -706,7 +711,14 @@ fn gen_subrange_overflow(rng: &mut Rng, g: &Gen) -> Op {
             (Some((0, g.len)), 3)
         }
     };
-    Op::VRead(ViewSpec { base, subs, k }, rng.below(4), rng.range(1, 9))
+    let v = ViewSpec { base, subs, k };
+    match rng.below(6) {
+        0 => Op::VRead(v, 0, 0),
+        1 => Op::VRead(v, rng.below(3), 0),
+        2 => Op::VUntil(v, rng.below(3), rng.below(5000), 0),
+        3 => Op::VRead(v, 0, rng.range(1, 9)),
+        _ => Op::VRead(v, rng.below(4), rng.range(1, 9)),
+    }
 }
 
 fn gen_op_raw(rng: &mut Rng, g: &Gen, data: &[u8], prev: &[Op]) -> Op {
@@ -984,6 +996,16 @@ fn shared_layer_case(len: u64, entire_first: bool) -> Case {
     p(Op::VUntil(v(Some((u64::MAX - 9, 5)), &[]), 5, 20, 0));
     p(Op::VUntil(v(Some((u64::MAX - 9, 5)), &[]), 20, 5, 0));
     p(Op::VUntil(v(Some((3, 5)), &[]), 20, 5, 0));
+    // make_subrange chains whose starts reach 2^64 (989a9c95: saturate, every non-empty read fails cleanly; a
+    // wrapping build would answer from offset 10 / 0 / 4 of the file)
+    p(Op::VRead(v(Some((u64::MAX - 9, 5)), &[(20, 1)]), 0, 1));
+    p(Op::VRead(v(Some((u64::MAX - 9, 5)), &[(20, 1)]), 0, 0));
+    p(Op::VRead(v(Some((u64::MAX - 9, 5)), &[(20, 1)]), 1, 0));
+    p(Op::VRead(v(None, &[(u64::MAX, 7), (1, 1)]), 0, 1));
+    p(Op::VRead(v(None, &[(u64::MAX, 7), (1, 1), (4, 2)]), 0, 3));
+    p(Op::VUntil(v(Some((u64::MAX - 9, 5)), &[(20, 1)]), 0, 2000, 0));
+    p(Op::VUntil(v(Some((1, 1)), &[(u64::MAX - 1, 1), (u64::MAX, 1)]), 0, 0, 0));
+    p(Op::VRead(v(Some((u64::MAX - 9, 5)), &[(9, 1)]), 0, 1)); // exactly u64::MAX: no saturation needed
     if !entire_first {
         p(Op::Entire);
     }
